@@ -106,6 +106,12 @@ func plantCanaries(w *wire.Writer) {
 		o.decoded.(*osm.Change).Create = nil
 		add(roundCase(4, 1, v, o, ""))
 	})
+	// 11. big case: a count in the decoded summary off by one
+	safely(func() {
+		c := bigCase(0, 33)
+		c.Toks[len(c.Toks)-1] ^= 2 // last item of the last summary (zigzag): 0 -> 1
+		add(c)
+	})
 	// 10. document: a decoded tag lost
 	safely(func() {
 		text := []byte(`{"version":0.6,"elements":[{"type":"node","id":1,"lat":1,"lon":2,"tags":{"a":"b","c":"d"}}]}`)
